@@ -36,6 +36,7 @@ import (
 	"os"
 	"os/exec"
 	"path/filepath"
+	"regexp"
 	"sort"
 	"strings"
 
@@ -54,6 +55,7 @@ type pkgInfo struct {
 	ImportPath string
 	Dir        string
 	GoFiles    []string
+	only       *regexp.Regexp
 }
 
 type site struct {
@@ -74,6 +76,8 @@ func main() {
 	drop := flag.String("drop", "", "comma separated Func or Recv.Method names whose bodies are replaced by a panic")
 	repo := flag.String("repo", "/repo", "repository root")
 	extraRoot := flag.String("modroot", "", "directory to run `go list` in (default: repo)")
+	extra := flag.String("extra", "", "comma separated extra packages (e.g. of the module cache) of which only the files matching -only-files are rewritten")
+	onlyFiles := flag.String("only-files", "", "regexp selecting the files of -extra packages")
 	flag.Parse()
 	if *out == "" || flag.NArg() == 0 {
 		fmt.Fprintln(os.Stderr, "usage: instr -out dir -profile p pkg...")
@@ -89,13 +93,29 @@ func main() {
 			dropSet[d] = true
 		}
 	}
-	exports, pkgs, err := goList(listDir, flag.Args())
+	targets := append([]string{}, flag.Args()...)
+	extraSet := map[string]bool{}
+	for _, x := range strings.Split(*extra, ",") {
+		if x != "" {
+			extraSet[x] = true
+			targets = append(targets, x)
+		}
+	}
+	var onlyRe *regexp.Regexp
+	if *onlyFiles != "" {
+		onlyRe = regexp.MustCompile(*onlyFiles)
+	}
+	exports, pkgs, err := goList(listDir, targets)
 	if err != nil {
 		fmt.Fprintln(os.Stderr, "instr: go list:", err)
 		os.Exit(2)
 	}
 	rep := &report{Profile: *profile, Overlay: map[string]string{}}
 	for _, p := range pkgs {
+		p.only = nil
+		if extraSet[p.ImportPath] {
+			p.only = onlyRe
+		}
 		if err := rewritePackage(p, exports, *out, *profile, dropSet, rep); err != nil {
 			fmt.Fprintf(os.Stderr, "instr: %s: %v\n", p.ImportPath, err)
 			os.Exit(2)
@@ -241,6 +261,9 @@ func rewritePackage(p *pkgInfo, exports map[string]string, out, profile string, 
 		return fmt.Errorf("type check: %v", err)
 	}
 	for i, f := range files {
+		if p.only != nil && !p.only.MatchString(p.GoFiles[i]) {
+			continue
+		}
 		r := &rewriter{fset: fset, info: info, profile: profile, rep: rep, skip: map[ast.Node]bool{}, file: p.GoFiles[i]}
 		before := len(rep.Sites)
 		r.dropBodies(f, drop)
